@@ -4,6 +4,7 @@
 use std::collections::HashMap;
 use std::io::{Read, Write};
 use std::os::unix::io::{AsRawFd, FromRawFd, RawFd};
+#[cfg(not(micro_http_verif))]
 use std::os::unix::net::{UnixListener, UnixStream};
 use std::path::Path;
 
@@ -12,7 +13,17 @@ pub use crate::common::{ConnectionError, ServerError};
 use crate::connection::HttpConnection;
 use crate::request::Request;
 use crate::response::{Response, StatusCode};
+#[cfg(not(micro_http_verif))]
 use vmm_sys_util::{epoll, eventfd::EventFd, sock_ctrl_msg::ScmSocket};
+
+// Verification seam: with `--cfg micro_http_verif` the server runs on a simulated
+// kernel (sockets, epoll, eventfd). Off by default; nothing changes without the flag.
+#[cfg(micro_http_verif)]
+use simkernel::net::{UnixListener, UnixStream};
+#[cfg(micro_http_verif)]
+use simkernel::{epoll, eventfd::EventFd};
+#[cfg(micro_http_verif)]
+use vmm_sys_util::sock_ctrl_msg::ScmSocket;
 
 static SERVER_FULL_ERROR_MESSAGE: &[u8] = b"HTTP/1.1 503\r\n\
                                             Server: Firecracker API\r\n\
